@@ -213,7 +213,15 @@ where
             Value::Boolean(b) => write!(self.w, "{}", if b.val { "true" } else { "false" })?,
             Value::Empty(_) => write!(self.w, "NULL")?,
             // TODO(jwall): We should maintain precision for floats?
-            Value::Float(f) => write!(self.w, "{}", f.val)?,
+            Value::Float(f) => {
+                let text = format!("{}", f.val);
+                // Without a fraction the literal would read back as an integer.
+                if text.contains('.') || !f.val.is_finite() {
+                    write!(self.w, "{}", text)?
+                } else {
+                    write!(self.w, "{}.0", text)?
+                }
+            }
             Value::Int(i) => write!(self.w, "{}", i.val)?,
             Value::Str(s) => write!(self.w, "\"{}\"", Self::escape_quotes(&s.val))?,
             Value::Symbol(s) => write!(self.w, "{}", s.val)?,
